@@ -39,6 +39,48 @@ BLIND_SPOTS = ["a wrong numerical block returned by a contribution", "sign error
 SYS = "cardillo/system.py"
 
 
+def assemble_accumulators_reset(ctx, rule="C14.R16"):
+    """System.assemble counts and collects: `self.nq += ...`, `e_N.extend(...)`, ...  Whatever it accumulates into an attribute of the
+    system must start from a value bound in assemble itself, on every path before the accumulation - an accumulator created in __init__
+    grows with every re-assembly (set_new_initial_state re-assembles)."""
+    from ..cfg import CFG
+    rep = ctx.rep
+    rel = "cardillo/system.py"
+    fn = ctx.repo.get(rel, "System.assemble")
+    C = f"{rel}:System.assemble"
+    cfg = CFG(fn)
+    binds = {}
+    for w in ast.walk(fn):
+        if isinstance(w, ast.Assign):
+            for t in w.targets:
+                for tt in (t.elts if isinstance(t, ast.Tuple) else [t]):
+                    if isinstance(tt, ast.Attribute) and dotted(tt.value) == "self":
+                        binds.setdefault(tt.attr, []).append(w)
+    acc = []
+    for w in ast.walk(fn):
+        if isinstance(w, ast.AugAssign) and isinstance(w.target, ast.Attribute) and dotted(w.target.value) == "self":
+            acc.append((w, w.target.attr))
+        elif isinstance(w, ast.Expr) and isinstance(w.value, ast.Call) and isinstance(w.value.func, ast.Attribute) and w.value.func.attr in ("append", "extend", "update", "add", "insert") \
+                and isinstance(w.value.func.value, ast.Attribute) and dotted(w.value.func.value.value) == "self":
+            acc.append((w, w.value.func.value.attr))
+    seen = set()
+    n = 0
+    for w, a in acc:
+        if a in seen:
+            continue
+        seen.add(a)
+        n += 1
+        wn = cfg.node_of(w)
+        ok_ = any(cfg.node_of(b) is not None and wn is not None and cfg.dominates(cfg.node_of(b), wn) for b in binds.get(a, []))
+        if ok_:
+            rep.ok(rule, C, f"self.{a} is accumulated from a value bound earlier in assemble")
+        else:
+            rep.bad(rule, C, w, f"`{norm_src(w)[:70]}` accumulates into self.{a}, which assemble does not bind first: the attribute keeps what the previous assembly put there, so after "
+                    "assemble() / set_new_initial_state() it holds every entry twice", f"{rel}:{w.lineno}")
+    if n < 8:
+        raise AnalysisError(f"{rule}: only {n} accumulated attributes found in System.assemble")
+
+
 def persistent_containers_fresh(ctx, rule="C14.R15"):
     """K8: `coo[rows, cols] = block` on a CooMatrix appends triplets (duplicates are summed on conversion).  A CooMatrix bound to `self.X` is
     state that survives the call; the pinned tree creates it in the same routine that fills it (`_M_coo`, `_c_la_c_coo`, both run by
@@ -109,6 +151,8 @@ def run(ctx):
     rep.rule("C14.R5", "list/callee co-definition (non-contact, non-E_pot families)", 40)
     rep.rule("C14.R6", "scatter method m calls contr.m (frozen exception table)", 60)
     rep.rule("C14.R8", "accumulation into index sets that may repeat an index (uDOF/qDOF of interactions) is unbuffered (np.add.at / COO)", 1)
+    rep.rule("C14.R16", "every attribute System.assemble accumulates into (counters, index lists, connectivity) is bound in assemble itself before the accumulation", 8)
+    assemble_accumulators_reset(ctx)
     rep.rule("C14.R15", "a CooMatrix kept on a contribution (constant mass / compliance matrix) is created in the routine that fills it: item stores into a CooMatrix APPEND, so a container created once and filled on every assembly holds k copies after the k-th assemble()", 0)
     persistent_containers_fresh(ctx)
     rep.rule("C14.R11", "System state that evaluation methods fill in (memoised conversions, lists) is re-initialised by assemble()", 1)
@@ -937,4 +981,8 @@ MUTANTS += [
 NEUTRAL += [
     dict(id="c14-n-r15", canary=True, what="rod: _M_coo fills a local container and binds it to the instance at the end", file='cardillo/rods/_base.py',
          edits=[('cardillo/rods/_base.py', "        self.constant_mass_matrix = True\n        self.__M = CooMatrix((self.nu, self.nu))\n        for el in range(self.nelement):", "        self.constant_mass_matrix = True\n        self.__M = M_coo = CooMatrix((self.nu, self.nu))\n        for el in range(self.nelement):")]),
+]
+
+MUTANTS += [
+    dict(id="c14-r16-seed", canary=True, what="[seeded by sub-agent for C24] System.assemble appends to a connectivity list created in __init__", file='cardillo/system.py', edits=[('cardillo/system.py', '        self.contributions = []\n        self.contributions_map = {}\n', '        self.NF_connectivity = []\n\n        self.contributions = []\n        self.contributions_map = {}\n'), ('cardillo/system.py', '                for i_N, i_F, force_law in contr.friction_laws:\n                    if len(i_N) == 0:\n                        self.constant_force_reservoir = True\n', '                for i_N, i_F, force_law in contr.friction_laws:\n                    if len(i_N) == 0:\n                        self.constant_force_reservoir = True\n                    self.NF_connectivity.append((contr.la_NDOF[i_N], contr.la_FDOF[i_F], force_law))\n')], expect="C14.R16"),
 ]
